@@ -1733,6 +1733,28 @@ def _refute_concretely(prog, f, ctx, node, base, idx, size_cache, ptr=None):
                 if a in ctx.divs:
                     free |= {b for b in ctx.divs[a][0].atoms()}
     free.discard(satom) if key[3] in ("local", "field") else free.add(satom)
+    # sizes of *other* local / member containers that occur (loop bounds, checks) are not the instance's to choose: they follow
+    # from their construction (resp. the class invariant), or the instance says nothing
+    derived = {}
+    for _ in range(3):
+        for a in sorted(free):
+            k2 = ctx.size_keys.get(a)
+            if a == satom or k2 is None or k2[3] not in ("local", "field") or a in derived:
+                continue
+            if k2[3] == "local":
+                if k2 not in size_cache:
+                    size_cache[k2] = _construction_size(ctx, f, k2)
+                cs2 = size_cache[k2]
+            else:
+                cs2 = class_size_invariants(prog, f.cls).get(k2[1]) if (f.cls and f.kind not in ("ctor", "copy_ctor", "move_ctor", "dtor")) else None
+            if cs2 is None:
+                return None
+            derived[a] = cs2
+            free |= {b for b in cs2.atoms() if not b.startswith("(")}
+            for b in cs2.atoms():
+                if b in ctx.divs:
+                    free |= set(ctx.divs[b][0].atoms())
+    free -= set(derived)
     free = sorted(a for a in free if not a.startswith("i:") and not a.startswith("("))
     if len(free) > 4 or any(a.startswith("l:") for a in free):
         return None
@@ -1756,6 +1778,17 @@ def _refute_concretely(prog, f, ctx, node, base, idx, size_cache, ptr=None):
     ranges = [sorted(r, key=lambda v: (abs(v), v < 0)) for r in ranges]
     for vals in itertools.product(*ranges):
         env = dict(zip(free, vals))
+        bad_inst = False
+        for _ in range(2):
+            for a, cs2 in derived.items():
+                v = lin_val(cs2, env)
+                if v is not None:
+                    env[a] = v
+        for a in derived:
+            if env.get(a) is None or env[a] < 0:
+                bad_inst = True
+        if bad_inst:
+            continue
         if size_expr is not None:
             sz = lin_val(size_expr, env)
             if sz is None or sz < 0:
